@@ -5,11 +5,11 @@ from .engine import Ctx, proof_report, TRUSTED
 from . import corr_cache, cacheseq
 
 def N(ctx, quick, thorough):
-    """case counts; the thorough tier is sized so that the sixteen thorough checks together take about two hours
+    """case counts; the thorough tier is sized so that the sixteen thorough checks together take about one hour
     on 16 cores (VERIF_THOROUGH_SCALE=1.0 gives the full counts written at the call sites)"""
     if ctx.tier == "quick":
         return quick
-    scale = float(os.environ.get("VERIF_THOROUGH_SCALE", "0.4"))
+    scale = float(os.environ.get("VERIF_THOROUGH_SCALE", "0.2"))
     return max(2 * quick, int(thorough * scale))
 
 def proof_part(ctx, props_file, proof_files, cov):
